@@ -176,4 +176,26 @@ PROPS = {
                                         "testing.tRunner on top); a trimpath build is modelled as runtime.GOROOT()==\"\" with module-relative file names and the package directory as working directory"],
         "outside": ["what the real runtime reports for inlined frames, wrappers and cgo", "helpers that live in a *_test.go file of another directory", "os.Getwd (any use is reported as inconclusive)"],
     },
+    "C14": {
+        "runs": [
+            {"harness": "H_C14_canonical", "quick": {"n": 1}, "thorough": {"n": 2, "v2sym": 1}},
+            {"harness": "H_C14_invalid", "reach": ["valid", "invalid"], "quick": {"n": 3}, "thorough": {"n": 4}},
+        ],
+        "bounds": {"quick": "templates {K1:V1,K2:7}, {K1:{K2:V1}}, [V1,7] with symbolic keys (<= 1 printable byte, distinct, no escapes) and V1 in digit/string/true|false|null/{}|[]; "
+                            "one symbolic white-space byte at any one of 7 structural gaps; default, unsorted-tab-indent and width-80 configurations; string, []byte and Go-value forms; "
+                            "invalid input: every byte string <= 3 bytes, MatchJSON and MatchStandaloneJSON",
+                   "thorough": "keys <= 2 bytes, V2 symbolic too; every byte string <= 4 bytes"},
+        "assumptions": COMMON_ASSUME + ["json.Marshal of a Go value is summarised: a value whose standard encoding is the document Doc marshals to Doc (vxrt.JSONValue), Doc without insignificant white space",
+                                        "tidwall/pretty and tidwall/gjson are executed from their SSA (not stubbed)"],
+        "outside": ["keys with escapes and duplicate keys (pretty's comparator enters encoding/json / ParseFloat)", "documents larger than the templates", "Go values beyond the Marshal summary (reflection)"],
+    },
+    "C15": {
+        "runs": [
+            {"harness": "H_C15_json", "quick": {"strlen": 2}, "thorough": {"strlen": 2, "neighbour": 1}},
+        ],
+        "bounds": {"quick": "document {a:V,o:{k:V},z:[V,2]}; path a, o.k or z.0; the targeted V in 1..2-digit number / string of <= 2 bytes / true|null, the others fixed; placeholder default string, short string, number, bool; Any and Custom",
+                   "thorough": "one neighbouring value symbolic as well"},
+        "assumptions": COMMON_ASSUME + ["tidwall/gjson (GetBytes) and tidwall/sjson (SetBytesOptions) are executed from their SSA, including their unsafe string/[]byte header casts (engine/interp/unsafe.go)"],
+        "outside": ["all YAML matchers (goccy/go-yaml lexer, parser, printer and path engine cannot be encoded)", "gjson path syntax beyond plain member/index paths", "keys needing escapes"],
+    },
 }
